@@ -82,3 +82,10 @@ Theorem C16_code_get_redirect_tie : ltac:(let t := type of @EquivSessionGet.get_
 Proof. exact (@EquivSessionGet.get_redirect_tie). Qed.
 Print Assumptions C16_code_get_redirect_tie.
 
+(* the redirect target is the whole meta of a 3x response (GeminiResponse.redirect_url, is_redirect) *)
+Theorem C16_code_response_redirect_url_tie : ltac:(let t := type of @Equiv.response_redirect_url_tie in exact t).
+Proof. exact (@Equiv.response_redirect_url_tie). Qed.
+Print Assumptions C16_code_response_redirect_url_tie.
+Theorem C16_code_status_is_redirect_tie : ltac:(let t := type of @Equiv.status_is_redirect_tie in exact t).
+Proof. exact (@Equiv.status_is_redirect_tie). Qed.
+Print Assumptions C16_code_status_is_redirect_tie.
